@@ -2,7 +2,7 @@
 
 An operation is a tuple (who, name, args...) with who in 'c','s':
     ('c','write',bytes) ('c','read',max|None,min) ('s','ku',0|1) ('s','pha') ('c','hb',bytes,pad)
-    ('c','close') ('c','inject',msgspec...) ('c','kill',1|2) ('c','abort')
+    ('c','close') ('c','inject',msgspec...) ('c','kill',1|2[,tx_kind[,rx_kind]]) ('c','abort')
 Both the implementation and the model answer with one canonical line
     <out> closed= res= rg= wg= tk= chain= reqs= hb= buf=
 (out = done | bytes:<hex> | stall | err:<lab.exc_class>), built here for the implementation from
@@ -57,14 +57,26 @@ class GenTracker(object):
 
 
 # ------------------------------------------------------------------ transport that can die
+def transport_error(kind):
+    """the socket.error a dead transport reports, per fault kind"""
+    if kind == "reset":
+        return socket.error(errno.ECONNRESET, "Connection reset by peer")
+    if kind == "timeout":
+        return socket.timeout("timed out")
+    if kind == "eio":
+        return socket.error(errno.EIO, "Input/output error")
+    return socket.error(errno.EPIPE, "Broken pipe")
+
+
 class FaultSock(object):
-    """proxy in front of a MemSock: when `rx_dead` is set, a receive that would block reports
-    EOF ('eof') or ECONNRESET ('reset') instead; when `tx_dead`, every send raises EPIPE"""
+    """proxy in front of a MemSock: when `rx_dead` is set, a receive that would block reports EOF
+    ('eof') or raises the error of that kind ('reset', 'timeout', 'eio') instead; when `tx_dead`
+    is set ('pipe', 'reset', 'timeout', 'eio'), every send raises that error"""
 
     def __init__(self, inner):
         self.inner = inner
         self.rx_dead = None
-        self.tx_dead = False
+        self.tx_dead = None
 
     def recv(self, n):
         if self.rx_dead and not self.inner.link.q[self.inner.rx]:
@@ -72,21 +84,21 @@ class FaultSock(object):
             self.inner.link.activity += 1
             if self.rx_dead == "eof":
                 return b""
-            raise socket.error(errno.ECONNRESET, "Connection reset by peer")
+            raise transport_error(self.rx_dead)
         return self.inner.recv(n)
 
     def send(self, data):
         if self.tx_dead:
             self.inner.send_calls += 1
             self.inner.link.activity += 1
-            raise socket.error(errno.EPIPE, "Broken pipe")
+            raise transport_error(self.tx_dead)
         return self.inner.send(data)
 
     def sendall(self, data):
         if self.tx_dead:
             self.inner.send_calls += 1
             self.inner.link.activity += 1
-            raise socket.error(errno.EPIPE, "Broken pipe")
+            raise transport_error(self.tx_dead)
         return self.inner.sendall(data)
 
     def __getattr__(self, name):
@@ -344,11 +356,12 @@ class Conn(object):
                 r = L.op(who, conn._sendMsg(msg), pump_other=False)
                 res = ("ok", None) if r[0] == "ok" else r
         elif name == "kill":
-            self.fs[w].tx_dead = True
-            self.fs[w].rx_dead = "eof" if op[2] == 1 else "reset"
+            # ('c','kill',rx[,tx_kind[,rx_kind]]): rx 1 = EOF, 2 = error; the model only knows rx 1/2 and "sends fail"
+            self.fs[w].tx_dead = op[3] if len(op) > 3 else "pipe"
+            self.fs[w].rx_dead = "eof" if op[2] == 1 else (op[4] if len(op) > 4 else "reset")
             res = ("ok", None)
         elif name == "abort":
-            self.fs[w].tx_dead = True
+            self.fs[w].tx_dead = "pipe"
             L.link.closed[self.fs[w].inner.tx] = True
             L.link.activity += 1
             res = ("ok", None)
